@@ -164,6 +164,8 @@ class C11(PropBase):
         # ... and one whose name is also a builtin's: the caller's module binding shadows it, as in Python
         world["modules"][0]["decls"].append({"d": "dataclass", "n": "Warning", "fields": [{"n": "a", "t": {"k": "int"}}], "flags": {}})
         world["modules"][1]["decls"].append({"d": "dataclass", "n": "Warning", "fields": [{"n": "a", "t": {"k": "str"}}, {"n": "b", "t": {"k": "int"}, "default": 0}], "flags": {}})
+        # a class kept on a namespace class (its qualified name has two parts below the module)
+        world["modules"][0]["decls"].append({"d": "raw", "n": "VwCanvas", "src": "class VwCanvas:\n    @dataclasses.dataclass\n    class VwPoint:\n        a: int\n        b: int = 0\n"})
         # a relay module that binds none of the names: references issued "through" it must still be
         # resolved against the module further up the stack that does
         world["modules"].append({"name": "vwr", "future": False, "decls": []})
@@ -236,6 +238,10 @@ class C11(PropBase):
                     # ForwardRef(module=)) from a module that binds the same short name to its own class
                     step["target"] = rng.choice([m for m in mods if m != mod])
                     step["spelling"] = rng.choice(["qualified", "fref"])
+                    step.pop("via", None)
+                if rng.random() < 0.15:
+                    # the nested class, by qualified string or ForwardRef(module=), from either module
+                    step.update(name="VwCanvas.VwPoint", target=mods[0], spelling=rng.choice(["qualified", "fref"]), x={"$dict": [["a", 5]]})
                     step.pop("via", None)
                 if rng.random() < 0.25:
                     step["shadowed"] = True  # issued by a function whose locals bind the same names to something else
